@@ -56,6 +56,11 @@ func (g grpcClientProtocol) extractProtocolRequestHeaders(_ *operation, headers 
 
 func (g grpcClientProtocol) addProtocolResponseHeaders(meta responseMeta, headers http.Header) int {
 	statusCode := grpcAddResponseMeta("application/grpc+", meta, headers)
+	if meta.end != nil {
+		// Trailers-only response: status and trailers are already in the headers.
+		// Announcing them as trailers would make net/http send them a second time.
+		return statusCode
+	}
 	if len(meta.pendingTrailers) > 0 {
 		if meta.pendingTrailerKeys == nil {
 			meta.pendingTrailerKeys = make(headerKeys, len(meta.pendingTrailers))
